@@ -325,6 +325,33 @@ impl Families {
     }
 }
 
+/// Landmark lengths: where size-triggered behaviour (index width, digit-reversal depth, layer counts, cache-blocking
+/// thresholds, base tables keyed by exponents) first changes. `top` = largest power-of-two exponent.
+pub fn landmark_lengths(top: u32, huge: bool) -> Vec<usize> {
+    let mut marks: Vec<usize> = vec![];
+    for k in 13..=top {
+        marks.push(1 << k);
+        if k >= 14 {
+            marks.push(3 << (k - 2));
+            marks.push(5 << (k - 3));
+        }
+    }
+    marks.extend([65537usize, 65539, 65543, 65551, 2 * 65539, 3 * 65537, 19683, 59049, 78125, 117649, 14641, 161051, 157464, 131071, 131101, 99991, 100003, 118098, 2 * 65687]);
+    if top >= 19 {
+        marks.extend([262147usize, 262501, 524309, 177147, 531441, 390625, 823543, 787320, 2 * 262147, 196830, 354294, 655360]);
+    }
+    if top >= 20 {
+        marks.extend([1048583usize, 1771561, 1594323, 1953125]);
+    }
+    if huge {
+        // beyond 2^21: one of each factor type (2^k*5, 2^k*21, semiprime of two ~1450 primes, 2*3^5*5^4*7, 3*10^6, prime, 2*prime)
+        marks.extend([5usize << 19, 21 << 17, 1297 * 1621, 2_126_250, 3_000_000, 2_097_169, 2 * 1_048_583, 1 << 22]);
+    }
+    marks.sort();
+    marks.dedup();
+    marks
+}
+
 /// classify a length for histograms (independent of rustfft)
 pub fn classify_len(n: usize) -> &'static str {
     if n < 2 {
